@@ -934,6 +934,12 @@ func c08CheckRej(c c08RejCase) engine.Result {
 			v.Descs = append([]ref.S35Desc(nil), s.Descs...)
 			v.Descs[i].Identifier = id
 			variants = append(variants, v)
+			// ... the same in a descriptor whose cancel indicator is set (cancelled or not, the identifier is the first thing behind the length)
+			vc := s
+			vc.Descs = append([]ref.S35Desc(nil), s.Descs...)
+			vc.Descs[i].Identifier = id
+			vc.Descs[i].Seg.Cancel = true
+			variants = append(variants, vc)
 		}
 	case "time_signal without time":
 		want = gots.ErrSCTE35UnsupportedSpliceCommand
@@ -1712,7 +1718,7 @@ func init() {
 			&engine.Enum[c08RejCase]{
 				Name: "rejections",
 				Rule: "4 well-formed base sections (time_signal+descriptor, splice_null with pointer 3 + foreign + 2 descriptors, splice_insert + 3 descriptors, bare time_signal with pointer 1) x {every splice_command_type other than 00/05/06 with 4 command bodies -> ErrSCTE35UnsupportedSpliceCommand; every table_id other than FC -> ErrUnknownTableID; encrypted_packet=1 with all 64 encryption_algorithm values, cw_index 0/FF -> ErrSCTE35EncryptionUnsupported; " +
-					"segmentation descriptor (each position) whose identifier is CUEI with one of 32 bits flipped / 0 / FFFFFFFF / byte-swapped -> ErrSCTE35InvalidDescriptorID; time_signal with time_specified_flag=0 -> ErrSCTE35UnsupportedSpliceCommand; every combination of two or more of {unknown table id, encrypted, unsupported command type (4 values), foreign identifier in a segmentation descriptor} -> the error of what comes first in the section (table id, then encryption since everything behind that bit is ciphertext; command type vs. descriptor identifier: either); program splice_insert with time_specified_flag=0: enumerated, only 'no panic, and faithful if accepted' asserted}; non-trivial = every asserted rejection",
+					"segmentation descriptor (each position, cancelled or not) whose identifier is CUEI with one of 32 bits flipped / 0 / FFFFFFFF / byte-swapped -> ErrSCTE35InvalidDescriptorID; time_signal with time_specified_flag=0 -> ErrSCTE35UnsupportedSpliceCommand; every combination of two or more of {unknown table id, encrypted, unsupported command type (4 values), foreign identifier in a segmentation descriptor} -> the error of what comes first in the section (table id, then encryption since everything behind that bit is ciphertext; command type vs. descriptor identifier: either); program splice_insert with time_specified_flag=0: enumerated, only 'no panic, and faithful if accepted' asserted}; non-trivial = every asserted rejection",
 				Gen:   c08GenRej,
 				Check: c08CheckRej,
 				Batch: 16,
